@@ -23,7 +23,8 @@ from specs.npdtype import NPDT
 CTX, BLD, JVAR, AVAL, LAD, JAXPR, TT, SHAPE, SYMDIM, TSORT = "IRCtx", "Builder", "JVar", "Aval", "LayoutAdapter", "Jaxpr", "TensorType", "IrShape", "SymDim", "Tsr"
 VALUE, NODE = GM.VALUE, GM.NODE
 DIM = Dyn("int", "ref:" + SYMDIM)          # a dimension of a JAX aval: int or symbolic expression
-IRDIM = Dyn("int", "str", "none")          # a dimension stored in an ir.Shape: int, symbol label, unknown
+IRSYM = "IrSymDim"
+IRDIM = Dyn("int", "ref:" + IRSYM)        # a dimension stored in an ir.Shape: int, or ir.SymbolicDim(value: str | None)
 MIC = "jax2onnx.converter.ir_context"
 MIU = "jax2onnx.ir_utils"
 
@@ -38,7 +39,6 @@ class CtxModel:
         f[(CTX, "_function_mode")] = Bool
         f[(CTX, "_keep_function_float32")] = Bool
         f[(CTX, "_default_float_dtype")] = Enum(NPDT)
-        f[(CTX, "enable_double_precision")] = Bool
         f[(BLD, "inputs")] = Seq(Ref(VALUE))
         f[(BLD, "outputs")] = Seq(Ref(VALUE))
         f[(BLD, "enable_double_precision")] = Bool
@@ -55,6 +55,9 @@ class CtxModel:
         f[(VALUE, "shape")] = Opt(Ref(SHAPE))
         f[(TT, "dtype")] = Enum("DataType")
         f[(SHAPE, "dims")] = Seq(IRDIM)
+        f[(IRSYM, "value")] = Opt(Str)
+        w.ref_classes[IRSYM] = {"onnx_ir.SymbolicDim"}
+        w.class_sorts["onnx_ir.SymbolicDim"] = IRSYM
         w.ref_classes[TT] = {"onnx_ir.TensorType"}
         w.ref_classes[SHAPE] = {"onnx_ir.Shape"}
         w.class_sorts.update({"onnx_ir.TensorType": TT, "onnx_ir.Shape": SHAPE})
@@ -91,6 +94,11 @@ class CtxModel:
     def builder_of(self, ex, ctx_term):
         return z3.Select(ex.heap_arrays(CTX, "builder")[0], ctx_term)
 
+    def symdim_is(self, ex, symref, label):
+        """the ir.SymbolicDim object carries exactly this label"""
+        a = ex.heap_arrays(IRSYM, "value")
+        return z3.And(symref != null_of(IRSYM), z3.Not(z3.Select(a[0], symref)), z3.Select(a[1], symref) == label)
+
     def fresh_value(self, ex, name="val"):
         return ex.new_object(VALUE, name)
 
@@ -122,8 +130,17 @@ class CtxModel:
         def mk_shape(ex, args, kw):
             dims = args[0]
             r = ex.new_object(SHAPE, "irshape")
+            if isinstance(dims, VRef) and dims.sort == SHAPE:
+                dims = ex.read_field(dims, "dims")  # ir.Shape(shape) clones the dims
             if isinstance(dims, (VTuple, VList)):
-                dims = ex.list_to_seq(VList(list(dims.items)), IRDIM)
+                items = []
+                for it in dims.items:
+                    if isinstance(it, (VStr, VNone)):
+                        sd = ex.new_object(IRSYM, "symdim")
+                        ex.write_field(sd, "value", it)
+                        it = sd
+                    items.append(it)
+                dims = ex.list_to_seq(VList(items), IRDIM)
             if not (isinstance(dims, VSeq)):
                 raise OutOfSubset(f"ir.Shape({dims!r})")
             ex.write_field(r, "dims", dims)
@@ -205,10 +222,10 @@ class CtxModel:
             out = c.field(r, "dims")
             k = z3.Int("k!sh")
             tag_in, int_in, sym_in = dims.arrs[0], dims.arrs[1], dims.arrs[2]
-            tag_out, int_out, str_out = out.arrs[0], out.arrs[1], out.arrs[2]
+            tag_out, int_out, sym_out = out.arrs[0], out.arrs[1], out.arrs[2]
             return z3.And(out.length == dims.length, z3.ForAll([k], z3.Implies(z3.And(0 <= k, k < dims.length), z3.And(
                 z3.Implies(z3.Select(tag_in, k) == 0, z3.And(z3.Select(tag_out, k) == 0, z3.Select(int_out, k) == z3.Select(int_in, k))),
-                z3.Implies(z3.Select(tag_in, k) == 1, z3.And(z3.Select(tag_out, k) == 1, z3.Select(str_out, k) == M.label(z3.Select(sym_in, k))))))))
+                z3.Implies(z3.Select(tag_in, k) == 1, z3.And(z3.Select(tag_out, k) == 1, M.symdim_is(c.ex, z3.Select(sym_out, k), M.label(z3.Select(sym_in, k)))))))))
         w.add_contract(Contract(f"{MIU}:ir_shape_from_dims", params={"dims": Seq(DIM), "parse_integer_like": Bool}, ret=Ref(SHAPE), assumed=True, fresh_result=True,
                                 ensures=[("dims_coerced", post_shape)], note="ir.Shape of the dims: an int stays that int, a symbolic dimension becomes its string label"))
 
